@@ -305,9 +305,24 @@ def run_case(case, ctx):
                     end = None if l is None else o + l
                     if not C.img_equal(C.image(w), C.image(got[o:end])):
                         ctx.violation('window-of-scaled-differs-from-scaled-window/%s' % tag, dict(info, offset=o, length=l, got=C.short(C.image(w)), want=C.short(C.image(got[o:end]))))
-            parts = [c_[:] for c_ in lch.data_chunks()]
+            chunk_objs = list(lch.data_chunks())
+            parts = [c_[:] for c_ in chunk_objs]
             if parts and not C.img_equal(C.image(np.concatenate(parts)), C.image(got)):
                 ctx.violation('chunked-scaling-differs', info)
+            # a chunk answers the same when asked again (element access, then the whole chunk once more)
+            for rep in (2, 3):
+                again = [c_[:] for c_ in chunk_objs]
+                if again and not C.img_equal(C.image(np.concatenate(again)), C.image(got)):
+                    ctx.violation('chunk-asked-again-differs/%s' % kinds, dict(info, time=rep, endian=[s_.endian for s_ in segs][:1]))
+                    break
+            firsts = [c_[0] for c_ in chunk_objs if len(c_)]
+            wantf, pos_ = [], 0
+            for c_ in chunk_objs:
+                if len(c_):
+                    wantf.append(got[pos_])
+                pos_ += len(c_)
+            if firsts and not C.img_equal(C.image(np.asarray(firsts)), C.image(np.asarray(wantf))):
+                ctx.violation('chunk-element-differs/%s' % kinds, dict(info, endian=[s_.endian for s_ in segs][:1]))
             # scaled values must not depend on what was looked up before: integer lookups, then windows and slices again
             for i in (sorted({0, N_ // 2, N_ - 1}) + [-1, -2 if N_ >= 2 else -1, -N_]) if N_ else []:
                 v = lch[i]
